@@ -5,9 +5,10 @@ name=$1; wt=$2; prop=$3
 cd $wt || exit 1
 demo_pkg=$(dirname $(git status --short | grep zz_demo_test.go | awk '{print $2}'))
 echo "demo package: $demo_pkg"
-git stash -q -- $(git diff --name-only) 2>/dev/null   # remove library change, keep untracked demo
+git diff > /tmp/seedcheck_$name.patch
+git apply -R /tmp/seedcheck_$name.patch   # remove library change, keep untracked demo
 go test -count=1 ./$demo_pkg/ 2>&1 | tail -1 | sed 's/^/WITHOUT change, demo: /'
-git stash pop -q
+git apply /tmp/seedcheck_$name.patch
 go build ./... || { echo BUILD-FAIL; exit 1; }
 go test -count=1 ./$demo_pkg/ 2>&1 | grep -c "^--- FAIL" | sed 's/^/WITH change, demo failing tests: /'
 mv $demo_pkg/zz_demo_test.go /tmp/zz_demo_$name.go
